@@ -3,7 +3,7 @@
 CONSTANTS
   Names = {1, 2, 3}
   MaxDepth = 2
-  Contents = {2, 8}
+  Contents = {3, 15}
   OidIsPath = FALSE
   CaseSensitive = TRUE
   BadNames = {}
